@@ -4,6 +4,8 @@ import (
 	"fmt"
 	"math/rand/v2"
 	"os"
+	"runtime/debug"
+	"strconv"
 	"strings"
 	"testing"
 
@@ -15,6 +17,18 @@ import (
 )
 
 const rehashAfterOps = 50
+
+// case ids of the concurrent / poller modes (replay files carry them)
+const (
+	concBase = 1_000_000
+	pollBase = 2_000_000
+)
+
+const ruleText = "case = one seeded run against the real preconfirmed.ChainStorage over a real Blockchain (memory DB): " +
+	"(sequential) a 70-130 step writer script of ApplyUpdate (full block: bootstrap / append / same round richer / not richer / blank identifier / new round at or below tip / gap / below oldest / misaligned; delta: at tip / wrong base / below tip / other identifier / new slot / skipped offset; no-change with / without / already-held classes) built as feeder wire JSON and decoded by starknet.DecodePreConfirmedUpdate, AdvanceTo, canonical head +1 / -1 - after every step: outcome and stored chain vs the sequential model, SnapshotForBlock(head+1) and an older alignment checked for contiguity, content, exact transaction / receipt lookup, PreConfirmedStateAt reads vs canonical reference state overlaid with the view's diffs in order, structural hash re-taken across the next operation and after >= 50 further operations; " +
+	"(concurrent) the same kind of script run by one writer goroutine while 4 readers take head-aligned views: same view oracles, overlay judged only when the head did not move during the read, published chain linearizable against the script (porcupine); " +
+	"(poller) the real Poller fed by a scripted sequencer (full / delta / no-change answers, backfill, class fetches, new rounds, gateway errors) with head moves between ticks and 3 readers. " +
+	"distinct = distinct (mode, operation/outcome sequence) with a stored chain of >= 2 blocks and at least one non-empty head-aligned view"
 
 func feltClasses(m map[string]core.ClassDefinition) map[felt.Felt]core.ClassDefinition {
 	if m == nil {
@@ -388,28 +402,56 @@ func TestC20(t *testing.T) {
 		t.Fatalf("feeder fixtures not readable: %v", err)
 	}
 	r := lib.Start("C20", "exploration")
+	// replay of one case: the case id carries the mode
+	if v := os.Getenv("VERIF_ONLY_CASE"); v != "" {
+		if k, err := strconv.Atoi(v); err == nil && k >= 0 {
+			func() {
+				defer func() {
+					if p := recover(); p != nil {
+						r.Violation("panic", k, fmt.Sprintf("panic: %v", p), map[string]any{"panic": fmt.Sprint(p), "stack": string(debug.Stack())})
+					}
+				}()
+				switch {
+				case k >= pollBase:
+					runPoller(r, k-pollBase)
+				case k >= concBase:
+					runConcurrent(r, k-concBase)
+				default:
+					runSequential(r, k)
+				}
+			}()
+			r.Finish(ruleText, 0)
+			return
+		}
+	}
 	// VERIF_C20_MODES (debugging aid): comma list out of seq,conc,poll
 	modes := os.Getenv("VERIF_C20_MODES")
 	on := func(m string) bool { return modes == "" || strings.Contains(modes, m) }
-	nSeq := r.N(240, 15000)
+	total := 0
 	if on("seq") {
-		r.Cases(nSeq, 0, func(idx int) { runSequential(r, idx) })
+		n := r.N(240, 4000)
+		total += n
+		r.Cases(n, 0, func(idx int) { runSequential(r, idx) })
 	}
 	if on("conc") {
-		n := r.N(32, 1000)
+		n := r.N(32, 300)
 		if r.Race { // the interleavings matter most under the race detector
 			n = max(n, 6)
 		}
+		total += n
 		r.Cases(n, 4, func(idx int) { runConcurrent(r, idx) })
 	}
 	if on("poll") {
-		n := r.N(12, 500)
+		n := r.N(12, 100)
 		if r.Race {
 			n = max(n, 3)
 		}
+		total += n
 		r.Cases(n, 4, func(idx int) { runPoller(r, idx) })
 	}
 	r.Assume("the canonical chain underneath (blockchain.Blockchain head / historical state reads on the memory DB, legacy state) answers correctly - that is C03's subject; here it is only the base of the overlay")
 	r.Assume("single writer, as documented for ChainStorage (the poller goroutine); readers are arbitrary")
-	r.Finish("sequential model-based scripts", max(1, nSeq/4))
+	r.Assume("feeder wire-format inputs are built from the sepolia pre_confirmed fixtures' transaction / receipt / header objects (invoke v3) plus hand-written L1_HANDLER / DECLARE / DEPLOY_ACCOUNT variants; inputs respect deployment order (a contract is written / replaced only at or after the block that deploys it)")
+	r.Assume("Poller mode has no sequential model of the poller: views are judged against their own blocks, which must each be a prefix of a round the scripted sequencer served")
+	r.Finish(ruleText, max(1, total/3))
 }
